@@ -50,11 +50,12 @@ def make_case(index, rng, tier):
         tc += rng.uniform(0.2, 0.9)
     real = rng.choice([None, None, None, "sync", "gthread", "gevent", "eventlet"])
     exec_fail = rng.choice([None] * 5 + ["ENOENT", "EACCES"])      # the new binary cannot be executed (first USR2 only)
+    fork_fail = rng.choice([None] * 8 + ["EAGAIN", "ENOMEM"]) if exec_fail is None else None      # ... or cannot even be forked
     new_boot_fail = rng.choice([None] * 6 + ["exit3", "exit4"]) if real is None and exec_fail is None else None
     # the disk is full (or /run read-only) for a moment, at the n-th file-system operation after the first USR2
     fs_fault = rng.choice([None] * 7 + [{"nth": rng.randrange(1, 12), "errno": rng.choice(["ENOSPC", "EACCES"])}]) if exec_fail is None else None
     return {"events": evs, "clients": clients, "unix": rng.randrange(2) == 0, "workers": rng.randrange(1, 3), "real": real, "exec_fail": exec_fail,
-            "new_boot_fail": new_boot_fail, "fs_fault": fs_fault,
+            "new_boot_fail": new_boot_fail, "fs_fault": fs_fault, "fork_fail": fork_fail,
             "graceful_timeout": rng.choice([1, 2]), "daemon": rng.randrange(3) == 0, "pidfile": rng.randrange(4) != 0,
             "buggify": {"pyticks": rng.randrange(3) == 0, "fork_child_first": rng.randrange(2) == 0, "spurious_select": rng.randrange(3) == 0,
                         "random_spawn_delay": rng.randrange(2) == 0}}
@@ -96,6 +97,17 @@ def run(case, choices):
                     return getattr(_errno, case["exec_fail"])
             return None
         sim.sys_fail = sys_fail
+    if case.get("fork_fail"):
+        import errno as _errno3
+
+        def sys_fail_fork(p_, op):
+            a_ = w.masters.get(p_.pid)
+            if op == "fork" and a_ is not None and a_._forking == "reexec" and not state.get("fork_failed"):
+                state["fork_failed"] = sim.now
+                sim.probe("fork_of_new_master_failed")
+                return getattr(_errno3, case["fork_fail"])
+            return None
+        sim.sys_fail = sys_fail_fork
     m0 = w.start_master()
     masters = [m0]               # process objects of every master generation, in creation order
     if case.get("fs_fault"):
